@@ -454,8 +454,8 @@ class C06(Prop):
                    "an optimiser that raises because pymoo found no feasible individual (res.X is None) returns no "
                    "solution: the property constrains returned solutions only (recorded as `no_feasible`)",
                    "local optimality is judged with the violation of the problem formulation G <= 0, H = 0: "
-                   "(sum max(0,g) + sum |h|, sum obj); for penalty-style constraint functions this is the climbers' own key "
-                   "(sum g + sum h, sum obj); for signed constraint functions the two differ (finding D41)",
+                   "(sum max(0,g) + sum |h|, sum obj), which since the repair of D41 is the climbers' own key for signed and "
+                   "penalty-style constraint functions alike",
                    "equality constraints of the evolutionary runs have integer data, so |H| is 0 or >= 1/2 and pymoo's "
                    "feasibility tolerance (1e-4) cannot make a member with H != 0 count as feasible"]
 
@@ -859,14 +859,31 @@ class C06(Prop):
             # the older copy of the exchange climber (UnconstrainedSteepestAscentSetHillClimber, maximising)
             {"kind": "old_hillclimb", "prob": dict(con, ineq=[], ineq_wt=[]), "seed": 4},
             {"kind": "old_hillclimb", "prob": mo, "seed": 5},
-            # D41: signed constraint functions, the hill climbers add the raw values Σ g + Σ h into their violation key
+            # regression case of D41 (repaired): signed constraint functions; the climbers used to add the raw values Σ g + Σ h
+            # into their violation key and stopped at [12, 15] although [10, 15] is feasible with a better score
             {"kind": "hillclimb", "gen": "scripted", "init": [12, 15], "dup": [12, 12],
              "prob": {"space": [10, 11, 12, 13, 14, 15], "k": 2, "mean": False, "obj_wt": [1], "lin": [[-4], [-3], [-2], [-5], [4], [-3]],
                       "ineq": [{"cost": [4, 3, 0, 3, 3, 0], "budget": 4, "signed": True}, {"cost": [0, 1, 0, 2, 2, 3], "budget": 3, "signed": True}],
                       "ineq_wt": [1, 1]}},
-            # D42: Problem._evaluate, vectorised branch (elementwise = False): `self.evalfn(v *args, **kwargs)`
+            # regression cases of D42 (repaired): Problem._evaluate, vectorised branch (elementwise = False) evaluated
+            # `self.evalfn(v *args, **kwargs)` = v * (): ValueError for ndecn >= 2, the empty vector for ndecn = 1
             {"kind": "ga", "algo": "SubsetGeneticAlgorithm", "prob": dict(sep, elementwise=False), "ngen": 2, "pop_size": 4, "seed": 33},
             {"kind": "ga", "algo": "SubsetGeneticAlgorithm", "prob": dict(sep, k=1, elementwise=False), "ngen": 2, "pop_size": 4, "seed": 34},
+            {"kind": "ga", "algo": "NSGA2SubsetGeneticAlgorithm", "prob": dict(mo, elementwise=False), "ngen": 2, "pop_size": 6, "seed": 46},
+            {"kind": "ga", "algo": "NSGA2RealGeneticAlgorithm", "vkind": "real",
+             "prob": {"lower": [0, 0], "upper": [2, 2], "C": [[1, 0], [-1, 1]], "obj_wt": [1, 1], "cap": None, "elementwise": False,
+                      "ineq": [{"coef": [1, 1], "budget": 3, "signed": True}]}, "ngen": 2, "pop_size": 6, "seed": 47},
+            {"kind": "ga", "algo": "IntegerGeneticAlgorithm", "vkind": "integer",
+             "prob": {"lower": [-3], "upper": [3], "C": [[2]], "obj_wt": [1], "cap": None, "elementwise": False}, "ngen": 2, "pop_size": 4, "seed": 48},
+            # signed constraints for the sorted-start climber and two constraints of which one is violated at the start
+            {"kind": "sorting_hillclimb",
+             "prob": {"space": [10, 11, 12, 13, 14, 15], "k": 2, "mean": False, "obj_wt": [1], "lin": [[-4], [-3], [-2], [-5], [4], [-3]],
+                      "ineq": [{"cost": [4, 3, 0, 3, 3, 0], "budget": 4, "signed": True}, {"cost": [0, 1, 0, 2, 2, 3], "budget": 3, "signed": True}],
+                      "ineq_wt": [1, 1]}},
+            {"kind": "hillclimb", "gen": "scripted", "init": [13, 14], "dup": [13, 13],
+             "prob": {"space": [10, 11, 12, 13, 14, 15], "k": 2, "mean": False, "obj_wt": [1], "lin": [[-4], [-3], [-2], [-5], [4], [-3]],
+                      "ineq": [{"cost": [4, 3, 0, 3, 3, 0], "budget": 4, "signed": True}, {"cost": [0, 1, 0, 2, 2, 3], "budget": 3, "signed": True}],
+                      "ineq_wt": [1, 2], "eq": [{"vec": [1, 0, 1, 0, 1, 0], "target": 1, "signed": True}], "eq_wt": [1]}},
             {"kind": "op_crossover", "a": [1, 2, 3, 4], "b": [3, 5, 1, 6], "nex": 1, "mex": [1]},
             {"kind": "op_crossover", "a": [1, 2, 3, 4], "b": [8, 5, 7, 6], "nex": 3, "mex": [2, 0, 2]},
             {"kind": "op_crossover", "a": [1, 2, 3], "b": [3, 1, 2], "nex": None, "mex": []},
@@ -892,12 +909,15 @@ class C06(Prop):
             c["rngkind"] = "RandomState"
         if rng.random() < 0.12:
             c["miscout"] = True
+        vectorised = rng.random() < 0.1      # problem built with elementwise = False: Problem._evaluate gets the whole batch
         if algo in VECTOR:
             kind, nobj = VECTOR[algo]
             c["vkind"] = kind
             c["prob"] = self._vector(rng, kind, nobj if nobj == 1 else rng.choice([2, 2, 3]))
             if nobj > 1:
                 c["pop_size"] = rng.randint(4, 12)
+            if vectorised:
+                c["prob"]["elementwise"] = False
             return c
         nobj = 1 if algo in SUBSET_SINGLE else rng.choice([2, 2, 3])
         signed = rng.random() < 0.5
@@ -912,6 +932,8 @@ class C06(Prop):
         else:
             c["prob"] = self._table(rng, n=rng.choice([2, 3, 4, 5, 6, 7, 8, 9]), nobj=nobj, mean=False,
                                     cons=rng.choice(["none", "none", "ineq", "ineq", "eq", "both"]), signed=signed, mag=mag)
+        if vectorised:
+            c["prob"]["elementwise"] = False
         if rng.random() < 0.15:
             c["prob"]["bounds"] = rng.choice(["none", "none", "no_lower", "no_upper"])     # documented Optional
         if algo == "NSGA3SubsetGeneticAlgorithm":
@@ -934,7 +956,7 @@ class C06(Prop):
         def table():
             t = self._table(rng, n=rng.choice([4, 5, 6, 7]), k=rng.choice([2, 3]), nobj=nobj, mean=False,
                             separable=rng.random() < 0.6, cons=rng.choice(["none", "none", "ineq", "eq"]),
-                            mag=rng.choice([None, None, None, "offset"]))
+                            mag=rng.choice([None, None, None, "offset"]), signed=rng.random() < 0.3)
             t.pop("posw", None)
             return t
         t = table()
@@ -1017,9 +1039,9 @@ class C06(Prop):
             elif r < 0.17:
                 out.append(self._position_dependent(rng))
             elif r < 0.30:
-                # one in ten with signed constraint functions (finding D41 when the two violation keys disagree)
+                # a third with signed constraint functions (G(x) <= 0 form: negative slack when satisfied)
                 t = self._table(rng, nobj=1, tie=rng.random() < 0.3, mag=rng.choice([None, None, None, "offset", "offset", "tiny"]),
-                                signed=rng.random() < 0.1)
+                                signed=rng.random() < 0.33)
                 if rng.random() < 0.5:
                     c = {"kind": "hillclimb", "prob": t, "gen": "real", "seed": rng.randrange(10 ** 6)}
                     if rng.random() < 0.15:
@@ -1036,7 +1058,7 @@ class C06(Prop):
             elif r < 0.39:
                 mag = rng.choice([None, None, None, "offset", "offset", "tiny"])
                 t = self._table(rng, nobj=1, tie=rng.random() < 0.3, cons=rng.choice(["none", "none", "ineq", "eq", "both", "tight"]),
-                                mag=mag, signed=rng.random() < 0.1)
+                                mag=mag, signed=rng.random() < 0.33)
                 if not t.get("quad") and rng.random() < 0.6:      # mostly non-separable: the sorted start is no optimum
                     n_ = len(t["space"])
                     unit = Fraction(1, 2 ** 30) if mag == "tiny" else 1
@@ -1737,7 +1759,6 @@ class C06(Prop):
         elif not s2["ok"]:
             fail = "not_optimal" if kind == "sorting" else "not_locally_optimal"
         ev = ans[-1][0] if ans[-1] else None     # Lean evalfn at the implementation's decision
-        raw_ok = s2.get("ok_raw")
         vals_ok = (ev is not None and canon.close_enc(ev["obj"], obs["obj"][0])
                    and canon.close_enc(ev["ineqcv"], obs["ineqcv"][0])
                    and canon.close_enc(ev["eqcv"], obs["eqcv"][0])) if obs["nsoln"] == 1 and obs["obj"] else False
@@ -1760,7 +1781,7 @@ class C06(Prop):
             if kind == "sorting_hillclimb":
                 corr = corr and same_keys(ans[3], obs["init"]) and obs["singletons"] == [[e] for e in p["space"]]
         nontriv = n > k and obs["decn"] and sorted(obs["decn"][0]) != sorted(p["space"][:k])
-        return {"corr": bool(corr), "spec": bool(spec), "nontrivial": bool(nontriv), "fail": fail, "raw_localopt": raw_ok,
+        return {"corr": bool(corr), "spec": bool(spec), "nontrivial": bool(nontriv), "fail": fail,
                 "detail": f"{kind}: fail={fail} impl decn={obs['decn']} obj={obs['obj']} G={obs['ineqcv']} H={obs['eqcv']} "
                           f"init={obs.get('init')} | spec={s} extra={s2} | model={ {a: mdl[a] for a in ('decn', 'obj', 'ineqcv', 'eqcv')} }"}
 
@@ -1847,7 +1868,6 @@ class C06(Prop):
         where = None
         nsol = 0
         details = []
-        raw_ok = None
         vkind = case.get("vkind", "subset")
         for o in obs["steps"] + [e for e in obs["end"] if e is not None]:
             if o.get("op", "min") == "poke":
@@ -1885,7 +1905,6 @@ class C06(Prop):
                     i += 1
                     if f is None and not lo["ok"]:
                         f = "not_locally_optimal"
-                        raw_ok = lo.get("ok_raw")
                 if o["algo"] == "sorting" and o["decn"] and not (p.get("quad") or p.get("posw")):
                     op = ans[i]
                     i += 1
@@ -1894,21 +1913,12 @@ class C06(Prop):
             if f is not None and fail is None:
                 fail, where = f, tag
                 details.append(str(o)[:400])
-        return {"corr": fail is None, "spec": fail is None, "fail": fail, "nontrivial": nsol >= 2, "raw_localopt": raw_ok,
+        return {"corr": fail is None, "spec": fail is None, "fail": fail, "nontrivial": nsol >= 2,
                 "detail": f"history: fail={fail} at {where} steps={[st.get('algo', st['op']) for st in case['steps']]} {details[:1]}"}
 
     # ------------------------------------------------------------------ findings / shrinking
     def signature(self, case, obs, verdict):
         sig = {"kind": case["kind"], "fail": verdict.get("fail")}
-        p = case.get("prob") or {}
-        if isinstance(p, dict):
-            # D41: signed constraint functions + a returned decision that IS a local optimum of the climbers' own
-            # raw key (Σ g + Σ h, score) but not of (Σ max(0,g) + Σ |h|, score)
-            sg = any(c.get("signed") for c in p.get("ineq", []) + p.get("eq", []))
-            sig["cv_form"] = "signed" if sg else "penalty"
-            sig["raw_localopt"] = verdict.get("raw_localopt")
-            # D42: the vectorised branch of Problem._evaluate (elementwise = False)
-            sig["elementwise"] = p.get("elementwise") is not False
         if case["kind"] == "ga":
             sig["algo"] = case["algo"]
             if case["algo"] not in VECTOR:
@@ -2227,7 +2237,29 @@ def _mutants():
         new_fn = ns["minimize"]
         return lambda: _patched(Sort, "minimize", new_fn)
 
+    def multi_mutant(cls, name, pairs):
+        """several textual edits of one method (in memory)"""
+        import inspect
+        src = inspect.getsource(getattr(cls, name)).replace("\r\n", "\n")
+        for a, b in pairs:
+            assert src.count(a) >= 1, (cls.__name__, name, a)
+            src = src.replace(a, b)
+        ns = {}
+        exec(compile("if True:\n" + src, f"<mutant {cls.__name__}.{name}>", "exec"), getattr(cls, name).__globals__, ns)
+        new_fn = ns[name]
+        return lambda: _patched(cls, name, new_fn)
+
+    # undo the repair of D41: the climbers rank by the raw sum of the (signed) constraint values again
+    RAW_CV = [("numpy.maximum(gbest_ineqcv, 0.0).sum() + numpy.abs(gbest_eqcv).sum()", "gbest_ineqcv.sum() + gbest_eqcv.sum()"),
+              ("numpy.maximum(prop_ineqcv, 0.0).sum() + numpy.abs(prop_eqcv).sum()", "prop_ineqcv.sum() + prop_eqcv.sum()")]
+
     muts4 = [
+        ("hillclimb_cv_raw_sum_of_signed_values", multi_mutant(SD, "minimize", RAW_CV)),
+        ("sorting_hillclimb_cv_raw_sum_of_signed_values", multi_mutant(SSD, "minimize", RAW_CV)),
+        ("hillclimb_cv_ignores_equality_sign", multi_mutant(SD, "minimize", [("numpy.abs(gbest_eqcv).sum()", "gbest_eqcv.sum()"),
+                                                                             ("numpy.abs(prop_eqcv).sum()", "prop_eqcv.sum()")])),
+        # undo the repair of D42: the vectorised branch multiplies the row by the args tuple
+        ("problem_evaluate_vectorised_multiplies_args", method_mutant(PbProblem, "_evaluate", "self.evalfn(v, *args, **kwargs)", "self.evalfn(v *args, **kwargs)")),
         ("subset_ga_derives_missing_bounds_on_the_problem", derive_bounds_mutant()),
         ("history_real_problem_bound_setters_leave_xl_xu_stale", stale_xl_mutant()),
         ("sorting_caches_ranking_by_problem_id", ranking_cache_mutant()),
